@@ -118,6 +118,8 @@ ACtor == /\ Scn = "ctor"
                /\ \E p \in {1, 2} : LET o == JoinOut(fcw, p, 3 - p)
                                     IN Step(Call("join", p, 0, Key(0, "C", NoIdx), Mode("", <<>>, 0), 3 - p, ""), o, o)
 
+ASSUME Emit => PrintT(<<"START", ToJson(Start)>>)
+
 FcInit == fcw = Start /\ fcres = "ok" /\ fcn = 0 /\ fclast = NoCall
 FcNext == ASet \/ ACmt \/ ADel \/ AMove \/ ASort \/ ACtor
 FcSpec == FcInit /\ [][FcNext]_fcvars
